@@ -5,6 +5,8 @@ import (
 	"github.com/zclconf/go-cty/cty/convert"
 )
 
+var prevConvIn = map[string]cty.Value{}
+
 func init() { register("conv", driveConv) }
 
 func convRes(v cty.Value, t cty.Type) J {
@@ -65,6 +67,23 @@ func driveConv(c *Ctx) error {
 					ev["r2"] = convRes(out, t)
 					ev["back"] = convRes(out, in.Type())
 				}
+				// one conversion obtained once and applied first to the previous value of this type, then to this one:
+				// the result must be the result of converting this value alone
+				tk := jsonKey(ProjectType(in.Type())) + "|" + jsonKey(ProjectType(t))
+				guard(func() {
+					cv := convert.GetConversionUnsafe(in.Type(), t)
+					if cv == nil {
+						return
+					}
+					if prev, ok := prevConvIn[tk]; ok {
+						guard(func() { cv(prev) })
+						var out cty.Value
+						var err error
+						p, msg := guard(func() { out, err = cv(in) })
+						ev["r3"] = resOf(out, err, p, msg)
+					}
+				})
+				prevConvIn[tk] = in
 				ev["safe"] = offered(in, t, false)
 				ev["unsafe"] = offered(in, t, true)
 				cl := []any{}
